@@ -94,6 +94,9 @@ def class_examples(rng, g, e=None):
         U.UNode(e(), "t"), U.UNodeSub(e(), "t", e()), U.ABCNode2D(3), U.UExplicit(e()),
         U.UInitFalse(e(), 3), U.UHashFalse(e(), "lb"), U.UInitHashFalse(e()),
         U.LegacyPure(e(), 2), U.LegacyVar("n", "tg"), U.LegacySum((e(), e())),
+        # two legacy levels: the intermediate class is met (hashed, compared) first
+        U.LegacyMid("n"), U.LegacyLeafTag("n", "ta"), U.LegacyLeafTag("n", "tb"),
+        U.LegacyLeafTag("n", "ta"), p.Variable("n"),
         # equal scalars of different type in the same position
         p.Sum((x, 1)), p.Sum((x, 1.0)), p.Sum((x, True)),
         p.Product((4, x)), p.Product((4.0, x)), p.Power(x, 2), p.Power(x, 2.0),
